@@ -152,6 +152,7 @@ func cmdCheck(args []string) int {
 	var all []*Obligation
 	var encs []*Enc
 	var notes []string
+	var bindErrs [][2]string // functions whose contract could not be bound to the current code
 	funcsUnder := []string{}
 	for _, fname := range cfg.Functions {
 		if *fn != "" && !strings.Contains(fname, *fn) {
@@ -159,8 +160,10 @@ func cmdCheck(args []string) int {
 		}
 		f := P.FindFunc(fname)
 		if f == nil {
-			fmt.Printf("ENGINE-ERROR: function %s not found in the current tree (renamed or removed?)\n", fname)
-			return 2
+			// the contract can no longer be bound to the code: the property is not
+			// established for this tree (reported as a violation without an input)
+			bindErrs = append(bindErrs, [2]string{fname, "function under contract not found in the current tree (renamed, removed, or closure ordinals shifted)"})
+			continue
 		}
 		// Houdini pre-pass: automatically guessed loop invariants (counter ranges) that
 		// do not discharge are dropped, never assumed.
@@ -170,8 +173,9 @@ func cmdCheck(args []string) int {
 			e = NewEnc(P, DB, f)
 			e.disabledAuto = disabled
 			if err := e.Run(); err != nil {
-				fmt.Printf("ENGINE-ERROR: %v\n", err)
-				return 2
+				bindErrs = append(bindErrs, [2]string{fname, err.Error()})
+				e = nil
+				break
 			}
 			changed := false
 			var autos []*Obligation
@@ -213,6 +217,9 @@ func cmdCheck(args []string) int {
 			if !changed {
 				break
 			}
+		}
+		if e == nil {
+			continue
 		}
 		for k := range disabled {
 			e.note("automatic loop invariant %s does not hold inductively: dropped", k)
@@ -386,6 +393,19 @@ func cmdCheck(args []string) int {
 		fmt.Println(k)
 	}
 	exit := 0
+	for _, be := range bindErrs {
+		name := ShortKey(be[0]) + "#contract.binding"
+		if kf := findKnown(known, id, name); kf != nil && kf.Status == "known" {
+			fmt.Printf("KNOWN-FINDING: property=%s %s: %s\n", id, name, kf.What)
+			continue
+		}
+		nViol++
+		rp := writeReplay(id, &OblResult{Name: name, Kind: "binding", Status: "unbound", output: be[1],
+			Desc: "the contract of this function cannot be bound to the current code, so its obligations cannot be generated and the property is not established: " + be[1]}, nil, cfg)
+		fmt.Printf("VIOLATION property=%s replay=%s obligation=%s status=unbound no-failing-input-found\n", id, rp, name)
+		fmt.Printf("  FAIL %s: %s\n", name, be[1])
+		exit = 1
+	}
 	for _, r := range violations {
 		model := parseGetValue(r.output)
 		rp := writeReplay(id, r, model, cfg)
